@@ -16,7 +16,7 @@ from .. import exact as X
 from ..runner import Batch, Checker, Fail, HarnessError, Law, Skip, call, exc_fail, mismatch
 
 RULE = (
-    "Diagram programs: 1-4 nodes (rank 1-3 plus 0-2 collection axes, axis sizes 2/3 with occasional mismatch, random "
+    "Diagram programs: 1-4 nodes (rank 1-3 plus 0-3 collection axes, axis sizes 2/3 with occasional mismatch, random "
     "co/contravariant pattern, entries |c|<=3, optional epsilon/delta nodes) and 0-6 edges incl. repeated edges, self loops "
     "and one Python object at several endpoints; built by constructor tuples or add_node/add_edge; surface forms a*b, a**k, "
     "tensor_product. Reference = index-bookkeeping model + explicit einsum string + pure-Python loops (cross-checked). "
@@ -40,7 +40,7 @@ def program(draw, tier="quick"):
     pair = draw(st.integers(0, 4)) == 0
     if pair:
         n_nodes, use_free = 2, False
-    free_sizes = [draw(st.sampled_from([1, 2, 3])) for _ in range(2)]
+    free_sizes = [draw(st.sampled_from([1, 2, 3])) for _ in range(3)]
     nodes = []
     narrow_case = draw(st.integers(0, 3)) == 0  # every plain node of the diagram has a narrow integer type
     for _ in range(n_nodes):
@@ -54,8 +54,8 @@ def program(draw, tier="quick"):
         rank = draw(st.integers(1, 3)) if not pair else draw(st.integers(2, 3))
         sizes = [d if (pair or draw(st.integers(0, 11))) else (5 - d) for _ in range(rank)]
         cov = [i for i in range(rank) if draw(st.booleans())]
-        nfree = draw(st.integers(0, 2)) if use_free else 0
-        fs = free_sizes[2 - nfree :] if nfree else []
+        nfree = draw(st.integers(0, 3)) if use_free else 0
+        fs = free_sizes[3 - nfree :] if nfree else []
         total = C.prod(fs + sizes)
         ent = draw(st.lists(st.integers(-3, 3), min_size=total, max_size=total))
         node = {"free": fs, "sizes": sizes, "cov": cov, "ent": ent}
@@ -335,6 +335,9 @@ def prog_labels(c):
         out.append("repeated-edge")
     if any(m["free"] for m in metas):
         out.append("collection-axes")
+        fr = [m["free"] for m in metas if m["free"] is not None]
+        if any(fr[j] >= max(fr[:j]) + 2 and max(fr[:j]) >= 1 for j in range(1, len(fr))):
+            out.append("collection-axes:later-node-has-two-more")
     if any("eps" in n or "delta" in n for n in c["nodes"]):
         out.append("eps/delta-node")
     if any(n.get("dt") and n.get("mul", 1) >= 300 for n in c["nodes"]):
@@ -557,7 +560,7 @@ def run_epseps(case):
 LAWS = [
     Law("diagram_program", lambda tier: program(tier), run_program, prog_nontrivial, prog_labels, {"quick": 3000, "thorough": 60000},
         "generated diagram programs vs reference bookkeeping model", shard=4000,
-        mandatory=("self-loop", "repeated-edge", "collection-axes", "predicted-error", "valid", "narrow-integer-type-large-entries", "two-nodes-edges-in-both-directions")),
+        mandatory=("self-loop", "repeated-edge", "collection-axes", "predicted-error", "valid", "narrow-integer-type-large-entries", "two-nodes-edges-in-both-directions", "collection-axes:later-node-has-two-more")),
     Law("surface_forms", lambda tier: surface(tier), run_surface, lambda c: True, lambda c: [c["form"]], {"quick": 800, "thorough": 10000},
         "a*b, b.__rmul__(a), a**k, a.tensor_product(b), a*ndarray as their defining programs", shard=4000),
     Law("epsilon_table", None, run_eps, enumerate=eps_cases, exhaustive=lambda tier: {"name": "all entries of LeviCivitaTensor(n), n=1..%d, both variances" % (7 if tier == "thorough" else 6), "size": sum(n**n for n in range(1, 8 if tier == "thorough" else 7)) * 2, "exhaustive": True},
